@@ -196,6 +196,28 @@ def stripFields (T : Table) (s : Bool) : List Row → List Val → List Val
   | _, fs => fs
 end
 
+-- "The full rendering minus exactly the members that hold detachable parts", at every depth: the operation on
+-- documents that the stripped writer is compared with (C18).  Directed by the kind, as the reader is.
+mutual
+def stripW (T : Table) : Kind → Wire → Wire
+  | .list k, .arr ws => .arr (stripWL T k ws)
+  | .node c, .obj t ms => .obj t (stripWM T (rowsOf T c) ms)
+  | .poly _, .obj (some t) ms =>
+    match classOfTag T t with
+    | some c => .obj (some t) (stripWM T (rowsOf T c) ms)
+    | none => .obj (some t) ms
+  | _, w => w
+def stripWL (T : Table) (k : Kind) : List Wire → List Wire
+  | [] => []
+  | w :: r => stripW T k w :: stripWL T k r
+def stripWM (T : Table) (rows : List Row) : List (String × Wire) → List (String × Wire)
+  | [] => []
+  | (n, w) :: r =>
+    match findRow rows n with
+    | some row => if row.encStrip then stripWM T rows r else (n, stripW T row.kind w) :: stripWM T rows r
+    | none => (n, w) :: stripWM T rows r
+end
+
 /-! ### Well-formedness of a table (decidable; `decide`d on the regenerated tables on every run) -/
 
 def simpleDflt : Val → Bool
@@ -248,7 +270,7 @@ def alwaysPassesB (r : Row) : Bool :=
 
 def wfRowB (r : Row) : Bool :=
   r.decReads && (!r.decRequired || alwaysPassesB r) && losslessB r && (r.encStrip == r.decStrip) &&
-  (!r.encStrip || !guardPass r.guard r.dflt) && simpleDflt r.dflt
+  (!r.encStrip || !guardPass r.guard r.dflt) && simpleDflt r.dflt && (!r.encStrip || !r.decRequired)
 
 def nodupB : List String → Bool
   | [] => true
